@@ -380,6 +380,16 @@ silent("C13", "dimension test spelled on the grid attribute",
        ("sub", "cubic.py", "            alt_volume = self._calculate_alternative_volume(shape)\n\n            def _fourier2",
         "            alt_volume = self._calculate_alternative_volume(shape)\n            dim = len(shape)\n\n            def _fourier2"))
 
+fire("C13", "2-D Fourier2 weights built transposed by broadcasting", "tensor-weight-layout",
+     ("sub", "cubic.py", "                weight = np.einsum(\"ij,i,j->ij\", weight, weight_x, weight_y) * alt_volume\n",
+      "                weight = weight_x[None, :] * weight_y[:, None] * alt_volume\n"))
+silent("C13", "2-D Fourier2 weights built by (correct) broadcasting",
+       ("sub", "cubic.py", "                weight = np.einsum(\"ij,i,j->ij\", weight, weight_x, weight_y) * alt_volume\n",
+        "                weight = weight_x[:, None] * weight_y[None, :] * alt_volume\n"))
+fire("C13", "tensor-product weights kron'ed in another order than the points", "tensor-weight-layout",
+     ("sub", "cubic.py", "            weights = np.kron(oned_x.weights, oned_y.weights)\n", "            weights = np.kron(oned_y.weights, oned_x.weights)\n"))
+fire("C13", "einsum multiplies the x-weights along the y axis", "tensor-weight-layout",
+     ("sub", "cubic.py", "                        return np.einsum(\"ij,i->ij\", weight, weight_dir)\n", "                        return np.einsum(\"ij,j->ij\", weight, weight_dir)\n"))
 silent("C13", "three-dimensional test spelled `!= 2`",
        ("sub", "cubic.py", "            if len(shape) == 3:\n                weight_z = _fourier2(shape, 2)\n", "            if len(shape) != 2:\n                weight_z = _fourier2(shape, 2)\n"))
 silent("C04", "precondition spelled with the operands exchanged",
